@@ -1,11 +1,17 @@
 //! Polynomial root finding / orthogonal-polynomial zeros (C14) and least-squares fitting (C17): observations only.
 use crate::util::*;
-use bacon_sci::optimize::{curve_fit, curve_fit_jac, linear_fit, CurveFitParams};
+use bacon_sci::optimize::linear_fit;
 use bacon_sci::polynomial::Polynomial;
 use bacon_sci::special;
 use nalgebra::SVector;
 use serde_json::{json, Value};
 use std::cell::RefCell;
+
+/// bacon's optimize module with the jac_finite_differences sign corrected (see build.rs)
+#[allow(dead_code, unused_imports, clippy::all)]
+mod optimize_twin {
+    include!(concat!(env!("OUT_DIR"), "/optimize_twin.rs"));
+}
 
 pub fn run_polyroots(args: &[String]) {
     let cases = read_ndjson(&args[0]);
@@ -86,32 +92,63 @@ fn grad(kind: &str, x: f64, p: &[f64]) -> Vec<f64> {
     }
 }
 
-fn fit_v<const V: usize>(case: &Value, calls: &RefCell<usize>, budget: usize) -> Result<Vec<f64>, String> {
-    let kind = case["model"].as_str().unwrap().to_string();
-    let xs = jfv(&case["xs"]);
-    let ys = jfv(&case["ys"]);
-    let init = jfv(&case["init"]);
-    let params = CurveFitParams::<f64> {
-        damping: jf(&case["damping"]),
-        tolerance: jf(&case["tol"]),
-        h: jf(&case["h"]),
-        damping_mult: jf(&case["mult"]),
-    };
-    let k2 = kind.clone();
-    let f = |x: f64, p: &SVector<f64, V>| {
-        *calls.borrow_mut() += 1;
-        if *calls.borrow() > budget {
-            panic!("budget");
+macro_rules! fit_impl {
+    ($name:ident, $m:path) => {
+        fn $name<const V: usize>(case: &Value, calls: &RefCell<usize>, budget: usize) -> Result<Vec<f64>, String> {
+            use $m as opt;
+            let kind = case["model"].as_str().unwrap().to_string();
+            let xs = jfv(&case["xs"]);
+            let ys = jfv(&case["ys"]);
+            let init = jfv(&case["init"]);
+            let params = opt::CurveFitParams::<f64> {
+                damping: jf(&case["damping"]),
+                tolerance: jf(&case["tol"]),
+                h: jf(&case["h"]),
+                damping_mult: jf(&case["mult"]),
+            };
+            let k2 = kind.clone();
+            let f = |x: f64, p: &SVector<f64, V>| {
+                *calls.borrow_mut() += 1;
+                if *calls.borrow() > budget {
+                    panic!("budget");
+                }
+                model(&kind, x, p.as_slice())
+            };
+            let r = if case["variant"] == "jac" {
+                let j = |x: f64, p: &SVector<f64, V>| SVector::<f64, V>::from_column_slice(&grad(&k2, x, p.as_slice()));
+                opt::curve_fit_jac::<f64, _, _, V>(f, &xs, &ys, &init, j, &params)
+            } else {
+                opt::curve_fit::<f64, _, V>(f, &xs, &ys, &init, &params)
+            };
+            r.map(|v| v.as_slice().to_vec())
         }
-        model(&kind, x, p.as_slice())
     };
-    let r = if case["variant"] == "jac" {
-        let j = |x: f64, p: &SVector<f64, V>| SVector::<f64, V>::from_column_slice(&grad(&k2, x, p.as_slice()));
-        curve_fit_jac::<f64, _, _, V>(f, &xs, &ys, &init, j, &params)
-    } else {
-        curve_fit::<f64, _, V>(f, &xs, &ys, &init, &params)
-    };
-    r.map(|v| v.as_slice().to_vec())
+}
+fit_impl!(fit_v, bacon_sci::optimize);
+fit_impl!(fit_twin_v, optimize_twin);
+
+/// one Levenberg-Marquardt run: (status, parameters, model calls)
+fn lm_run(case: &Value, twin: bool) -> (&'static str, Vec<f64>, usize) {
+    let calls = RefCell::new(0usize);
+    let budget = ji(&case["budget"]) as usize;
+    let v = ji(&case["v"]);
+    let r = std::panic::catch_unwind(std::panic::AssertUnwindSafe(|| match (v, twin) {
+        (1, false) => fit_v::<1>(case, &calls, budget),
+        (2, false) => fit_v::<2>(case, &calls, budget),
+        (3, false) => fit_v::<3>(case, &calls, budget),
+        (4, false) => fit_v::<4>(case, &calls, budget),
+        (1, true) => fit_twin_v::<1>(case, &calls, budget),
+        (2, true) => fit_twin_v::<2>(case, &calls, budget),
+        (3, true) => fit_twin_v::<3>(case, &calls, budget),
+        (4, true) => fit_twin_v::<4>(case, &calls, budget),
+        _ => panic!("unsupported parameter count"),
+    }));
+    let n = *calls.borrow();
+    match r {
+        Ok(Ok(p)) => ("ok", p, n),
+        Ok(Err(_)) => ("err", vec![], n),
+        Err(_) => (if n > budget { "budget" } else { "panic" }, vec![], n),
+    }
 }
 
 pub fn run_fit(args: &[String]) {
@@ -147,24 +184,20 @@ pub fn run_fit(args: &[String]) {
             out.put(o);
             continue;
         }
-        let calls = RefCell::new(0usize);
-        let budget = ji(&case["budget"]) as usize;
-        let v = ji(&case["v"]);
-        let r = std::panic::catch_unwind(std::panic::AssertUnwindSafe(|| match v {
-            1 => fit_v::<1>(&case, &calls, budget),
-            2 => fit_v::<2>(&case, &calls, budget),
-            3 => fit_v::<3>(&case, &calls, budget),
-            4 => fit_v::<4>(&case, &calls, budget),
-            _ => panic!("unsupported parameter count"),
-        }));
-        o["calls"] = json!(*calls.borrow());
-        match r {
-            Ok(Ok(p)) => {
-                o["st"] = json!("ok");
-                o["params"] = fvj(&p);
-            }
-            Ok(Err(_)) => o["st"] = json!("err"),
-            Err(_) => o["st"] = json!(if *calls.borrow() > budget { "budget" } else { "panic" }),
+        let (st, p, n) = lm_run(&case, false);
+        o["st"] = json!(st);
+        o["params"] = fvj(&p);
+        o["calls"] = json!(n);
+        // the same case through the twin (only curve_fit uses the finite-difference Jacobian)
+        if case["variant"] == "fd" {
+            let (st, p, n) = lm_run(&case, true);
+            o["twin_st"] = json!(st);
+            o["twin_params"] = fvj(&p);
+            o["twin_calls"] = json!(n);
+        } else {
+            o["twin_st"] = o["st"].clone();
+            o["twin_params"] = o["params"].clone();
+            o["twin_calls"] = o["calls"].clone();
         }
         out.put(o);
     }
